@@ -74,6 +74,12 @@ class Scenario:
         self.violations.append((kind, text, sig))
 
 
+class ReplayDivergence(HarnessError):
+    """A recorded prefix of choices no longer leads to the same decision points. The worlds are closed and rebuilt from
+    scratch for every execution, so this means the code under test carried something over from an earlier execution in
+    the same process (module- or class-level state)."""
+
+
 class Execution:
     __slots__ = ('choices', 'menus', 'costs', 'violations', 'obs', 'labels', 'end', 'extra')
 
@@ -147,8 +153,8 @@ def execute(factory, params, prefix, want_labels=False):
             if n < len(prefix):
                 c = prefix[n]
                 if c >= len(menu):
-                    raise HarnessError('replay divergence at point %d: choice %d of %d (%r)'
-                                       % (n, c, len(menu), menu))
+                    raise ReplayDivergence('replay divergence at point %d: choice %d of %d (%r)'
+                                           % (n, c, len(menu), menu))
             else:
                 c = 0
             ex.choices.append(c)
@@ -181,6 +187,9 @@ def execute(factory, params, prefix, want_labels=False):
                 ex.end = 'cap'
                 sc.flag('livelock', 'execution exceeded %d decision points without reaching the horizon' % sc.max_points, trigger='cap')
                 break
+        if n < len(prefix) and ex.end != 'livelock':
+            raise ReplayDivergence('replay divergence: the execution ended (%s) after %d of the %d recorded decision points'
+                                   % (ex.end, n, len(prefix)))
         try:
             sc.finish()
         except Livelock as e:
@@ -253,7 +262,22 @@ def explore_subtree(factory, params, prefix, bound, on_exec, stats, budget=None)
         if budget is not None and stats.executions >= budget:
             stats.caps += 1
             return False
-        ex = execute(factory, params, p)
+        try:
+            ex = execute(factory, params, p)
+        except ReplayDivergence as e:
+            # reported as a violation of its own: a fresh server / client behaved differently from the fresh one of an
+            # earlier execution - it has never occurred on a tree that passes
+            ex = Execution()
+            ex.choices = list(p)
+            ex.menus = [0] * len(p)
+            ex.costs = [[0] * (max(p) + 1 if p else 1)] * len(p)
+            ex.violations = [('process_state_leak', 'a world built from scratch did not follow the schedule recorded on an earlier '
+                              'world built from scratch (%s): state of the code under test survives between fresh servers / clients '
+                              'of one process' % e, {'trigger': 'replay'})]
+            stats.executions += 1
+            on_exec(ex, p)
+            nviol += 1
+            continue
         stats.executions += 1
         stats.points += len(ex.choices)
         stats.max_points = max(stats.max_points, len(ex.choices))
@@ -264,7 +288,8 @@ def explore_subtree(factory, params, prefix, bound, on_exec, stats, budget=None)
         on_exec(ex, p)
         if ex.violations:
             nviol += 1
-        stack.extend(alternatives(ex, len(p), bound))
+        if len(ex.choices) >= len(p):
+            stack.extend(alternatives(ex, len(p), bound))
     return True
 
 
@@ -356,8 +381,17 @@ def run_search(factory, params_list, bound, workers=16, seed=0, budget_per_subtr
         todo.append((params, []))
     nviol = len(viols[:20])
     for k, (params, choices) in enumerate(todo[:40]):
-        a = execute(factory, params, choices)
-        b = execute(factory, params, choices)
+        try:
+            a = execute(factory, params, choices)
+            b = execute(factory, params, choices)
+        except ReplayDivergence:
+            # only reachable when the parallel search already reported process_state_leak (a fresh world not following a
+            # schedule recorded on an earlier fresh world); recorded, not raised a second time
+            gate['replayed'] += 1
+            if viols:
+                gate['diverging_violations'] = gate.get('diverging_violations', 0) + 1
+                continue
+            raise
         gate['replayed'] += 1
         if a.choices != b.choices or a.menus != b.menus or \
                 dumps(a.obs, sort_keys=True) != dumps(b.obs, sort_keys=True) or \
